@@ -143,7 +143,8 @@ def upsertDisc (d : Disc) (l : List Disc) : List Disc :=
 /-- one discovered endpoint `d` seen by the local endpoint `e` of participant `x` in one worker iteration -/
 def discoverEp (now : Nat) (x : Part) (e : Ep) (d : Disc) : Ep × List LogEntry :=
   if d.topic != e.topic then (e, [])
-  else if !Partition.partitionMatch d.partition e.partition then (e, [])        -- :892 `if is_partition_matched`
+  else if !(if e.isWriter then Partition.writerSideMatch e.partition d.partition
+            else Partition.readerSideMatch d.partition e.partition) then (e, [])   -- `if is_partition_matched`, each side its own copy
   else
     let a : Ann := ⟨d.key, revOf d.qos⟩
     let compat := if e.isWriter then rxo e.qos d.qos else rxo d.qos e.qos
